@@ -15,7 +15,9 @@ Tie to /repo on every run:
      leading matrix supplied and checked inside Coq; tolerance 1e-11 * scale for numpy.linalg.inv);
  (F) direct evaluator, 1e-10 * scale: random invertible non-orthogonal A (also GFcalc's own qptrans), random
      float/complex parity-consistent expansions: rotated(p) = original(A p) with an evaluator written from the
-     definition; inv(a) * a and a * inv(a) = identity through the requested order, order by order."""
+     definition; inv(a) * a and a * inv(a) = identity through the requested order, order by order.  One
+     evaluation point array (|p| != 1) is handed to all expansions of a case; every library call must leave its
+     arguments (points, operands, A, npowtrans) bit-identical (key c17-input-mutated)."""
 META = dict(
     level="proof",
     text=("Coq theorems: rotatedirections/rotatecoeff is the exact change of variables for every matrix A, every ordered ring, "
@@ -80,7 +82,7 @@ def frac_inverse(M):
 def scenario_rotation(rng, Ts, d, B, ncoef):
     T = Ts[d]
     A = rand_dyadic_matrix(rng, d)
-    npt = T.rotatedirections(A)
+    with tc.unchanged("exact tier: rotatedirections", A=A): npt = T.rotatedirections(A)
     N = int(T.Npower)
     tab = B.define("(rotatedirections QK %d 4 %s)" % (d, tc.qmat(A)), "list (list (list QK))")
     den = tc.common_den([npt])
@@ -94,7 +96,8 @@ def scenario_rotation(rng, Ts, d, B, ncoef):
         V = "(pwmod QK %d)" % n
         An = B.define(tc.mkx(n, a), xtype(n))
         dom = "(wfb QK %d 4 %s %s && forallb (parity_okb_entry QK %d 4 %s) %s)" % (d, V, An, d, V, An)
-        res = tc.real_coefflist(T(a).rotate(npt))
+        ta = T(a)
+        with tc.unchanged("exact tier: rotate", a=ta, npowtrans=npt): res = tc.real_coefflist(ta.rotate(npt))
         t2 = T(a); t2.irotate(npt); res2 = tc.real_coefflist(t2)
         for op, r in (("rotate", res), ("irotate", res2)):
             B.add("code %s (ocmp %d (peqb QK %d) (rotatecoeff QK %d 4 %s %s %s) %s)" % (dom, n, n, d, V, tab, An, tc.mkx(n, r)),
@@ -133,7 +136,8 @@ def scenario_inverse(rng, Ts, d, B):
     a, lead, Nmax, shape = gen_invertible(rng, d, k, scalar)
     rng.shuffle(a)                               # inversecoeff sorts its input itself
     n = k * k
-    res = tc.real_coefflist(T([(nn, l, c.astype(complex)) for nn, l, c in a]).inv(Nmax))
+    ta = T([(nn, l, c.astype(complex)) for nn, l, c in a])
+    with tc.unchanged("exact tier: inv", a=ta): res = tc.real_coefflist(ta.inv(Nmax))
     Ainv = frac_inverse(lead)
     V = "(pwmod QK %d)" % n
     An = B.define(tc.mkx(n, a), xtype(n))
@@ -241,20 +245,23 @@ def float_tier(ck, Ts):
         shape = rng.choice([(), (2, 2), (1, 3)])
         nl = parity_nl(rng, rng.randint(1, 4), distinct=rng.random() < .6)
         a = rand_float_parity(nr, rng, d, shape, nl, cplx)
-        p = nr.normal(size=d); p *= rng.uniform(0.5, 2.0) / np.linalg.norm(p)
-        q = A @ p
+        p = nr.normal(size=d); p *= rng.choice([rng.uniform(0.4, 0.8), rng.uniform(1.25, 2.5)]) / np.linalg.norm(p)
+        q = A @ p; porig = p.copy()
         try:
-            npt = T.rotatedirections(A)
-            rot = T(a).rotate(npt)
-            irot = T(a); irot.irotate(npt)
+            ta = T(a)
+            with tc.unchanged("rotatedirections", A=A): npt = T.rotatedirections(A)
+            with tc.unchanged("rotate", a=ta, npowtrans=npt): rot = ta.rotate(npt)
+            irot = T(a)
+            with tc.unchanged("irotate", npowtrans=npt): irot.irotate(npt)
+            # one evaluation point p (|p| != 1), handed to every expansion as the same array object
             lhs1, lhs2 = tc.impl_value(rot, p), tc.impl_value(irot, p)
             # the rotated expansion must also survive reduce() (GFcalc reduces right after rotating)
-            lhs3 = tc.impl_value(T(a).rotate(npt).reduce(), p)
+            lhs3 = tc.impl_value(ta.rotate(npt).reduce(), p)
         except (ArithmeticError, ValueError, TypeError, IndexError) as e:
             ck.violation("implementation raised %s: %s in rotate" % (type(e).__name__, e),
                          {"dim": d, "A": A.tolist(), "nl": nl, "iteration": it}, key="c17-float-exception-rotate")
             continue
-        rhs = tc.value(a, q, d)                      # definition-level evaluation of the original at A p
+        rhs = tc.value(a, A @ porig, d)              # definition-level evaluation of the original at A p (original point)
         rhs_impl = tc.impl_value(T(a), q)
         sc = 1 + absscale(a, float(np.linalg.norm(q))) * max(1.0, np.linalg.norm(A, 2)) ** 0
         for label, lhs in (("rotate", lhs1), ("irotate", lhs2), ("rotate.reduce", lhs3)):
@@ -281,9 +288,11 @@ def float_tier(ck, Ts):
         n0 = min(n for n, _, _ in a)
         u = nr.normal(size=d); u *= rng.uniform(0.7, 1.5) / np.linalg.norm(u)
         try:
-            inv = T(a).inv(Nmax)
-            left = tc.impl_value(inv * T(a), u, per_order=True)
-            right = tc.impl_value(T(a) * inv, u, per_order=True)
+            ta = T(a)
+            with tc.unchanged("inv", a=ta): inv = ta.inv(Nmax)
+            with tc.unchanged("inv(a)*a", a=ta, inv=inv): pl = inv * ta; pr = ta * inv
+            left = tc.impl_value(pl, u, per_order=True)
+            right = tc.impl_value(pr, u, per_order=True)
         except (ArithmeticError, ValueError, TypeError, IndexError) as e:
             ck.violation("implementation raised %s: %s in inv" % (type(e).__name__, e),
                          {"dim": d, "a": [[n, l, np.asarray(c).tolist()] for n, l, c in a], "Nmax": Nmax}, key="c17-float-exception-inv")
@@ -355,3 +364,4 @@ def run(ck):
     exact_tier(ck, Ts)
     float_tier(ck, Ts)
     real_dtype_probe(ck, Ts)
+    tc.flush_guard(ck, "c17")
